@@ -35,6 +35,7 @@ type Fact struct {
 	S   string
 	R   string
 	T   time.Time
+	T2  time.Time
 	P   *Sub
 	Q   *Sub
 	N   Sub
@@ -43,6 +44,12 @@ type Fact struct {
 	M   map[string]int64
 	PI  *int64
 	Any interface{}
+
+	// sinks of the expression harness
+	RI int64
+	RF float64
+	RB bool
+	RS string
 
 	PanicAt    int64
 	HeavyCalls int
@@ -134,6 +141,8 @@ func newFact(tag string, shape int) *Fact {
 	f.M = map[string]int64{"a": smallInt(tag + ".Ma"), "b": smallInt(tag + ".Mb")}
 	pi := smallInt(tag + ".PI")
 	f.PI = &pi
+	f.T = time.Unix(smallInt(tag+".T.sec")+1700000000, 0).UTC()
+	f.T2 = time.Unix(smallInt(tag+".T2.sec")+1700000000, 0).UTC()
 	f.PanicAt = 7
 	return f
 }
@@ -151,6 +160,8 @@ type factSnap struct {
 	mlen int
 	pi   int64
 	n    int64
+	mc   int64
+	hasC bool
 }
 
 func snapFact(f *Fact, n int64) factSnap {
@@ -165,6 +176,7 @@ func snapFact(f *Fact, n int64) factSnap {
 	s.arr = append([]int64{}, f.Arr...)
 	s.fa = append([]float64{}, f.FA...)
 	s.ma, s.mb, s.mlen = f.M["a"], f.M["b"], len(f.M)
+	s.mc, s.hasC = f.M["c"]
 	s.pi = *f.PI
 	return s
 }
